@@ -703,3 +703,148 @@ def c18(tier, seed):
                           srch.step(a[0], a[1], limit=rnd.choice(depths)), srch.step(a[0], a[1], limit=None, stop=rnd.randrange(50, 5000))])
         return [("tablehist", th), ("longgames", long), ("mixed", mixed)]
     search_check_pv("C18", {"C18"}, tier, seed, build)
+
+
+@check("C19")
+def c19(tier, seed):
+    def build(run, vh, quick, rnd):
+        srch.searchctl(run, 2, False, "C19")
+        classes, pools, flat, games = search_pools(run, vh, "C19", seed, quick)
+        pos = rnd.sample(flat, min(len(flat), 10 if quick else 40)) + [(f, []) for f in gen.read_roots()[:: (4 if quick else 1)]]
+        depths = [1, 2, 3, 4] if quick else [1, 2, 3, 4, 5]
+        hs = []
+        for f, p in pos:
+            h = []
+            for d in depths:
+                h.append(srch.step(f, p, limit=d, fresh=True, tag="fresh"))
+            # the same searches again, each time after a different history ending in a reset
+            for d in depths:
+                junk = rnd.choice(pos)
+                h.append(srch.step(junk[0], junk[1], limit=rnd.choice(depths), tag="junk"))
+                h.append(srch.step(f, p, limit=rnd.choice(depths), tag="junk-same-position"))
+                h.append(srch.step(f, p, limit=None, stop=rnd.randrange(0, 3000), tag="junk-aborted"))
+                h.append(srch.step(f, p, limit=d, fresh=True, tag="after-reset"))
+            # shuffled order of depths, fresh each time
+            for d in rnd.sample(depths, len(depths)):
+                h.append(srch.step(f, p, limit=d, fresh=True, tag="fresh-again"))
+            hs.append(h)
+        return [("repro", hs)]
+    search_check("C19", {"C19"}, tier, seed, build)
+
+
+# --------------------------------------------------------------------------- C09
+
+@check("C09")
+def c09(tier, seed):
+    import random
+    run = core.Run("C09", tier, seed)
+    vh = prepare()
+    quick = tier == "quick"
+    rnd = random.Random(seed)
+    d = game.trace_dir("C09")
+    flat, games = srch.game_positions(vh, "C09", seed, 8 if quick else 40, 120, 6)
+    fams = families(run, [("KXK", 9000 if quick else 900), ("PROMO", 3000 if quick else 300), ("EP", 40000 if quick else 4000)], seed, "C09")
+    fam_pos = []
+    for f in fams:
+        fam_pos += [(l.strip(), []) for l in open(f) if l.strip()]
+    late = [x for x in flat if len(x[1]) >= 60]
+    early = [x for x in flat if len(x[1]) < 60]
+    cases = []
+
+    def add(pos, depths, orders):
+        for f, p in pos:
+            for dd in depths:
+                cases.append({"fen": f, "pre": p, "d": dd, "orders": orders, "seed": rnd.randrange(1 << 30)})
+    add([(f, []) for f in srch.TINY], [1, 2, 3, 4], 4)
+    add([(f, []) for f in gen.read_roots()], [1, 2], 3)
+    add(rnd.sample(fam_pos, min(len(fam_pos), 120 if quick else 600)), [1, 2, 3] if quick else [1, 2, 3, 4], 3)
+    add(rnd.sample(late, min(len(late), 40 if quick else 250)), [1, 2, 3], 3)
+    add(rnd.sample(early, min(len(early), 25 if quick else 150)), [1, 2], 3)
+    rnd.shuffle(cases)
+    chunks = [cases[i::core.NPROC] for i in range(core.NPROC)]
+
+    def mk(ic):
+        i, chunk = ic
+        script = os.path.join(d, "cases-%d.json" % i)
+        json.dump({"cases": chunk}, open(script, "w"))
+        out = os.path.join(d, "trees-%d.ndjson" % i)
+        p = core.sh([vh, "tree", "--script", script, "--out", out], check=False, timeout=3600)
+        if p.returncode != 0:
+            raise core.ToolError("tree driver died: " + p.stderr[-500:])
+        return out
+    outs = core.pmap(mk, [(i, c) for i, c in enumerate(chunks) if c])
+
+    def judge(out):
+        return out, core.tlc_trace(out, spec="RefSearch", heap="6g")
+    trees = 0
+    nodes = 0
+    skipped = 0
+    keys = set()
+    for out, res in core.pmap(judge, outs):
+        run.cov["traces_validated_against_impl"] += 1
+        run.cov["events_validated"] += res["events"]
+        evs = [json.loads(l) for l in open(out)]
+        for e in evs:
+            if "nodes" in e:
+                trees += 1
+                nodes += e["n"]
+                keys.add((e["fen"], tuple(e["pre"]), e["d"]))
+                if len(run.cov["samples"]) < 4 and e["n"] > 50:
+                    run.sample({"fen": e["fen"], "prefix": e["pre"], "depth": e["d"], "tree_nodes": e["n"], "engine_runs": e["runs"]})
+            else:
+                skipped += 1
+        for f in res["fails"]:
+            if f["p"] == "HARNESS":
+                run.notes.append("tree skipped: " + f["w"])
+            elif f["p"] in ("C09", "PANIC"):
+                dd = f["d"] or {}
+                run.violation(f, {"driver": "tree", "case": {"fen": dd.get("fen"), "pre": dd.get("pre", []), "d": dd.get("d"), "orders": 4, "seed": seed}})
+    # the reference evaluation is itself a TLC run: count its states (one per tree)
+    run.cov["states"] += run.cov["events_validated"]
+    run.cov["transitions"] += run.cov["events_validated"]
+    run.cov["evaluations"] = trees
+    run.cov["distinct_nontrivial"] = len(keys)
+    run.cov["tree_nodes_evaluated_by_tlc"] = nodes
+    run.cov["cases_skipped_too_large_or_trivial"] = skipped
+    run.cov["rule"] = ("one case = (position, depth): the full tree is dumped from the real engine (<= 60000 nodes, else skipped), the real "
+                       "search is run table-less with a fresh and with randomly pre-filled history tables (3-4 ordering states), and TLC "
+                       "evaluates RefSearch!RefValue on the tree; trees with a moveless capture-extension node and roots with <= 1 move are "
+                       "skipped; distinct = distinct (position, depth)")
+    run.assumptions += ["numeric equality of two pure functions: TLC is the independent evaluator of the transcribed reference; depth <= 4 on sparse "
+                        "material, <= 2 on rich positions", "mate-range scores are compared after clamping to +-15000"]
+    shutil.rmtree(d, ignore_errors=True)
+    run.finish()
+
+
+def replay_tree(prop, obj, path, vh):
+    d = game.trace_dir(prop + "-replay")
+    script = os.path.join(d, "case.json")
+    json.dump({"cases": [obj["case"]]}, open(script, "w"))
+    out = os.path.join(d, "tree.ndjson")
+    core.sh([vh, "tree", "--script", script, "--out", out])
+    res = core.tlc_trace(out, spec="RefSearch", heap="6g")
+    bad = [f for f in res["fails"] if f["p"] in (prop, "PANIC")]
+    for f in bad:
+        print("VIOLATION property=%s replay=%s" % (prop, path))
+        print("  " + json.dumps({"w": f["w"], "d": f["d"]})[:600])
+    print("replayed: %s" % ("property violated" if bad else "no violation"))
+    sys.exit(1 if bad else 0)
+
+
+def replay_history(prop, obj, path, vh):
+    d = game.trace_dir(prop + "-replay")
+    script = os.path.join(d, "hist.json")
+    json.dump({"histories": [obj["history"]]}, open(script, "w"))
+    out = os.path.join(d, "hist.ndjson")
+    core.sh([vh, "search", "--script", script, "--out", out], check=False)
+    res = core.tlc_trace(out, spec="TraceSearch", env={"PVCHECK": "1"})
+    bad = [f for f in res["fails"] if f["p"] in (prop, "PANIC")]
+    for f in bad:
+        print("VIOLATION property=%s replay=%s" % (prop, path))
+        print("  " + json.dumps({"w": f["w"], "d": f["d"]})[:600])
+    print("replayed %d searches: %s" % (res["events"], "property violated" if bad else "no violation"))
+    sys.exit(1 if bad else 0)
+
+
+REPLAYERS["tree"] = replay_tree
+REPLAYERS["search-history"] = replay_history
